@@ -1154,8 +1154,23 @@ func (c *Check) siblingBounds(rule string) {
 			if len(consts) != 1 || !mentionsParam {
 				continue
 			}
-			// parameters by type, so that the two validators are comparable
+			// the bounded value is abstracted, so that validators written over a parameter and over a field are comparable
 			fs := last.Fact.String()
+			last.Fact.T.Walk(func(t *Term) bool {
+				if (t.Op == "<" || t.Op == "==") && len(t.A) == 2 {
+					for i := 0; i < 2; i++ {
+						if t.A[i].IsAt(consts[0]) {
+							o := stripConv(t.A[1-i])
+							if o.Op == "len" && len(o.A) == 1 {
+								fs = strings.ReplaceAll(fs, o.A[0].String(), "$V")
+							} else {
+								fs = strings.ReplaceAll(fs, o.String(), "$V")
+							}
+						}
+					}
+				}
+				return true
+			})
 			for i, pr := range f.Params {
 				fs = strings.ReplaceAll(fs, fmt.Sprintf("P%d)", i), "<"+typeName(pr.Type())+">)")
 				fs = strings.ReplaceAll(fs, fmt.Sprintf("P%d ", i), "<"+typeName(pr.Type())+"> ")
